@@ -64,6 +64,13 @@ def make_scenario(spec, seed, idx):
             # serial numbers whose first characters are not ASCII, or look like another variant's letter; id spellings int(x, 16) accepts
             'pad': r.choice(('3CJ', '3CJ', 'ABZ', '\u00e9BJ', '\u00e98K', '\u00f14Q', '\u4e2d6Z', 'B8J', '64K')),
             'device_id': r.choice(('28e9:0189', '28e9:0189', '28E9:0189', '0x28e9:0x0189', '28e9:189'))}
+    if r.random() < 0.1:
+        base['knobs']['platform'] = 'win32'
+    if r.random() < 0.1:
+        base['knobs']['fifo'] = True
+    if r.random() < 0.1:
+        base['knobs']['fwname'] = r.choice(('-', 'firm ware.bin', 'fw.bin.dfu'))
+        base['knobs']['relname'] = True
     if k in ('o', 'ro'):
         if k == 'o':
             v, n = spec['v'], spec['len']
@@ -114,7 +121,7 @@ def make_scenario(spec, seed, idx):
                 fw={'len': n, 'kind': r.choice(('random', 'mixed')), 'seed': r.randrange(1 << 30)},
                 init={'kind': r.choice(('ff', 'random', 'old')), 'seed': r.randrange(1 << 30)},
                 start_error=r.choice((0, 0, 0, r.randint(1, 15))),
-                sched=dfusim.draw_sched(r, 3 * pages, knobs), knobs=knobs, errors=errs, lenient=r.random() < 0.5)
+                sched=dfusim.draw_sched(r, 3 * pages, knobs), knobs=dict(base['knobs'], **knobs), errors=errs, lenient=r.random() < 0.5)
     return base
 
 
